@@ -23,6 +23,34 @@ CHECKS = {
         technique="TLA+ spec RopeChange + TLC exhaustive invariants; spec-to-code replay of every terminal behaviour",
         engine="tlc-replay",
     ),
+    "C11": dict(
+        category="model_checking",
+        text="TLC explores spec/RopeHistory.tla (do of 1-2 leaf change sets, undo, redo, selective undo/redo of any listed "
+             "change with the code's dependency pass, drop, clear, history limit) exhaustively to 4-5 API calls with the "
+             "trail and to unbounded calls over 3 changes under a VIEW, plus random walks of 10 calls; invariants: "
+             "NeverMade (tree = replay of the changes still in force), OnlyDependents (the code's one-pass dependency "
+             "search equals the closure the property describes), LimitRespected, RedoClearedByDo, EmptyRefused. Every "
+             "exported behaviour is replayed on a real project and after every call the disk tree and the identity and "
+             "order of undo_list/redo_list are compared with the spec state.",
+        design_ref="3.1 C11",
+        note="Bounded universe (9 paths, contents 0..2, <=6 changes); legal action set excludes clobbering moves and "
+             "folder moves into missing parents; no external edits. Trusts TLC and the RopeFS model (cross-checked by "
+             "the replay: predicted tree must equal the disk after every call).",
+        technique="TLA+ spec RopeHistory + TLC invariants/action properties; spec-to-code replay with per-step state comparison",
+    ),
+    "C18": dict(
+        category="fault_enumeration",
+        text="spec/RopePersist.tla models the writer steps of _DataFiles.write_data per data file, Crash after any step "
+             "and Reopen; TLC proves OpenNeverRaises/CompleteVersion/OldNeverLost for the atomic writer and refutes them "
+             "for the in-place writer. The fs events of real Project.close() calls are recorded and validated by TLC "
+             "against spec/TracePersist.tla (no live data file ever holds a content the measured reader raises on). "
+             "Driven by that event list, the real save is cut at every event boundary and every byte prefix of every "
+             "write, then a new Project is opened and used; lists must be complete old, complete new or empty.",
+        design_ref="3.1 C18",
+        note="Crash granularity = Python-level open/write/close/os.replace calls with byte-prefix cuts; fsync/directory "
+             "durability not observable. Interposition on rope.base.project.open and os.replace/rename/remove.",
+        technique="TLA+ spec RopePersist + TLC; trace validation of recorded save traces (TracePersist); byte-level crash enumeration on the real code",
+    ),
 }
 
 NOT_YET = "check not built yet in this round; see DESIGN.md section 3 for the planned spec and binding"
